@@ -269,11 +269,11 @@ theorem unique_by_name {l : List OA} (hn : (names l).Nodup) {a b : OA} (ha : a â
     Â· exact absurd (by rw [â† h]; exact List.mem_map_of_mem ha') hn.1
     Â· exact ih hn.2 ha' hb'
 
-theorem dedupOA_id (acc l : List OA) (hn : (names (acc ++ l)).Nodup) : dedupOA acc l = acc ++ l := by
+theorem dedupOAM_id (m : Bool) (acc l : List OA) (hn : (names (acc ++ l)).Nodup) : dedupOAM m acc l = acc ++ l := by
   induction l generalizing acc with
-  | nil => simp [dedupOA]
+  | nil => simp [dedupOAM]
   | cons x xs ih =>
-    unfold dedupOA
+    unfold dedupOAM
     have hx : acc.any (fun y => y.name == x.name && y.creator == x.creator) = false := by
       rw [List.any_eq_false]
       intro y hy
@@ -286,6 +286,9 @@ theorem dedupOA_id (acc l : List OA) (hn : (names (acc ++ l)).Nodup) : dedupOA a
     simp only [hx, Bool.false_eq_true, â†“reduceIte]
     rw [ih (acc ++ [x]) (by simpa [List.append_assoc] using hn)]
     simp
+
+theorem dedupOA_id (acc l : List OA) (hn : (names (acc ++ l)).Nodup) : dedupOA acc l = acc ++ l :=
+  dedupOAM_id _ acc l hn
 
 /-- where a `MakeDerived( x, cr )` call comes from, in terms of the attribute sequence of the chain -/
 def DerivedCall (xs : List (String Ã— Attr)) (x cr : String) : Prop :=
